@@ -37,6 +37,7 @@ class Ob:
         self.max_paths = max_paths
         self.wall_s = wall_s
         self.partial_ok = partial_ok
+        self.expect_exception_paths = expect_exception_paths
 
 
 def registry():
@@ -347,6 +348,10 @@ def run_property(pid, tier, seed, only=None, jobs=None, verbose=False):
         paths += st["paths"]
         if st.get("budget_exhausted") and not ob.partial_ok:
             inconclusive.append("%s: path budget exhausted" % ob.name)
+        if st.get("exceptions") and not ob.expect_exception_paths:
+            # an exception that escapes the obligation body (raised by the code under test where the harness does not expect a refusal, or by the
+            # harness itself on a tree it was not written for) ends the path before its remaining claims: nothing may be concluded from it
+            inconclusive.append("%s: %d path(s) ended in an uncaught exception: %s" % (ob.name, st["exceptions"], "; ".join((r.get("exceptions") or [])[:2])))
         if not r["claims"]:
             inconclusive.append("%s: no claim reached (vacuous)" % ob.name)
         verdicts = {}
